@@ -2507,6 +2507,13 @@ hs_gen_req(int id, int port, bool last, bool make_mutant)
 	default:
 		r.method = "GET";
 		r.target = "/missing/page";
+		if (W(0, 2) == 0) {
+			// ... with a body that no handler will collect: the server has to
+			// skip it and go on with whatever follows on the connection
+			static const size_t ns[] = { 5, 300, 2000 };
+			r.method = W(0, 1) ? "POST" : "PUT";
+			r.body   = payload_gen(0x32000000u + (uint32_t) id, ns[W(0, 2)]);
+		}
 		break;
 	}
 	r.tag = W(0, 3) == 1 ? Bytes() : "t" + std::to_string(id) + " with  inner spaces; =,\"q\"";
